@@ -47,3 +47,17 @@ CHECKS['C13'] = dict(
          'operation; concurrent writers/readers are explored under the controlled scheduler.',
     note='Payload space beyond length 2 is covered by shape only (256^4096 is not enumerable); magic-word flips are not '
          'required to be rejected; line-level preemption granularity in focus functions.')
+
+ENGINES.append({'name': 'crash', 'path': 'vf/harness/c17.py + vf/linehook.py', 'kind_free_text':
+    'crash-point / fault enumeration: every source line of the output path is a kill point (kernel-visible '
+    'destination content checked) and a fault-injection point; two-step kill-then-rewrite histories',
+    'serves_properties': ['C17']})
+CHECKS['C17'] = dict(
+    engine='crash', level='fault_enumeration', design_ref='DESIGN.md#c17',
+    technique='exhaustive crash-point and fault-point enumeration on the real output callbacks',
+    text='For OutputToJSON, OutputToFile (pickle and custom str/bytes/iterator serializers) and atomic_write, with a fresh '
+         'or previously complete destination: the destination is inspected at every line-level kill point of the output '
+         'path, and the run is repeated with an OSError injected at every line of the output modules, with serializers '
+         'raising after every k chunks, NaN under allow_nan=False, and failing/partial k-th write, flush and close of the '
+         'staging file; plus kill-at-k-then-rewrite histories. Destination must be absent / previous / complete new.',
+    note='Kill = process kill (completed syscalls persist); staging dir on the destination file system; line granularity.')
